@@ -40,6 +40,7 @@ Record contracts := {
   user_acquires : string -> list string;     (* locks a callback of this kind may acquire *)
   constructors : list string;                (* functions allowed to write immutable fields *)
   waived : list (string * string);           (* (function, field): accesses excused by a recorded known finding *)
+  rank : string -> nat;                      (* lock order: a lock may only be acquired while every held lock has a smaller rank *)
 }.
 
 Definition mem (l : string) (ls : list string) : bool := existsb (String.eqb l) ls.
@@ -69,6 +70,9 @@ Fixpoint acts_eqb (a b : list act) : bool :=
 Definition declared (decl : option (list string)) (l : string) : bool :=
   match decl with None => true | Some d => mem l d end.
 
+(* every lock of h ranks strictly below l *)
+Definition ranked (rk : string -> nat) (h : held) (l : string) : bool := forallb (fun lm => Nat.ltb (rk (fst lm)) (rk l)) h.
+
 Definition rd_ok (h : held) (ls : list string) : bool :=
   existsb (fun l => match lookup l h with Some _ => true | None => false end) ls.
 Definition wr_ok (h : held) (ls : list string) : bool :=
@@ -79,12 +83,36 @@ Inductive ckind :=
 | KReacquire | KAcqUndeclared | KRelMode | KRelNotHeld | KRelUndeclared      (* subject: the lock *)
 | KUnguardedRead | KUnguardedWrite | KImmutableWrite                         (* subject: the field *)
 | KCallback                                                                  (* subject: the callback kind *)
+| KLockOrder                                                                 (* subject: the lock / callee / callback acquired out of order *)
 | KCallRequires | KCallHolding | KCalleeUndeclared                           (* subject: the callee *)
 | KBreakLocks | KBreakOutside | KBranches | KLoopNeutral | KSwitchNeutral | KDeferInLoop | KDeferInSwitch
-| KReturnHeld | KGoHeld | KLiteralNeutral | KReqAcqOverlap
+| KReturnHeld | KGoHeld | KGoHolding | KLiteralNeutral | KReqAcqOverlap
 | KUndefinedCallee | KDuplicateName | KEntryRequires | KLiteralCallee | KUnsupported.   (* program-level *)
 Definition complaint := (ckind * string)%type.
 Notation "a +++ b" := (@List.app complaint a b) (at level 60, right associativity).
+
+(* ---- call graph: callees, reachability from the entry points ---- *)
+Fixpoint callees (p : prog) : list string :=
+  match p with
+  | PCall f => [f]
+  | PSeq p q | PAlt p q => callees p ++ callees q
+  | PLoop p | PBlock p | PLoop1 p | PGo p => callees p
+  | _ => []
+  end.
+Fixpoint dedup (l : list string) : list string :=
+  match l with [] => [] | x :: t => if mem x t then dedup t else x :: dedup t end.
+(* ---- inference of the [acquires] table (untrusted: the checker validates whatever table it is given).
+        A function is charged with what the goroutines it starts may acquire as well: the starter may wait for them. ---- *)
+Fixpoint direct_acq (ua : string -> list string) (p : prog) : list string :=
+  match p with
+  | PAct (Acq l _) => [l]
+  | PAct (User k) => ua k
+  | PDefer (Acq l _) => [l]
+  | PDefer (User k) => ua k
+  | PSeq p q | PAlt p q => direct_acq ua p ++ direct_acq ua q
+  | PLoop p | PBlock p | PLoop1 p | PGo p => direct_acq ua p
+  | _ => []
+  end.
 
 (* abstract state: locks certainly held + deferred actions; None = no normal exit *)
 Definition st := option (held * list act).
@@ -97,7 +125,10 @@ Section Check.
     match a with
     | Acq l m =>
         if declared decl l then
-          match lookup l h with None => ([], (l, m) :: h) | Some _ => ([(KReacquire, l)], h) end
+          match lookup l h with
+          | None => if ranked (rank C) h l then ([], (l, m) :: h) else ([(KLockOrder, l)], (l, m) :: h)
+          | Some _ => ([(KReacquire, l)], h)
+          end
         else ([(KAcqUndeclared, l)], (l, m) :: h)
     | Rel l m =>
         if declared decl l then
@@ -118,9 +149,13 @@ Section Check.
         | GFree => ([], h)
         end
     | User k =>
-        if disjoint h (user_acquires C k) && forallb (declared decl) (user_acquires C k) then ([], h)
+        if disjoint h (user_acquires C k) && forallb (declared decl) (user_acquires C k) then
+          (if forallb (ranked (rank C) h) (user_acquires C k) then ([], h) else ([(KLockOrder, k)], h))
         else ([(KCallback, k)], h)
     end.
+
+  Definition go_acq (p : prog) : list string :=
+    dedup (direct_acq (user_acquires C) p ++ flat_map (acquires C) (callees p)).
 
   Fixpoint run_defers (decl : option (list string)) (h : held) (ds : list act) : list complaint * held :=
     match ds with
@@ -181,17 +216,23 @@ Section Check.
     | PCall f =>
         ((if covers h (requires C f) then [] else [(KCallRequires, f)]) +++
          (if disjoint h (acquires C f) then [] else [(KCallHolding, f)]) +++
-         (if forallb (declared decl) (acquires C f) then [] else [(KCalleeUndeclared, f)]),
+         (if forallb (declared decl) (acquires C f) then [] else [(KCalleeUndeclared, f)]) +++
+         (if forallb (ranked (rank C) h) (acquires C f) then [] else [(KLockOrder, f)]),
          Some (h, ds))
     | PRet =>
         let '(e, h') := run_defers decl h ds in
         (e +++ (if held_eqb h' entry then [] else [(KReturnHeld, fname)]), None)
     | PGo p =>
+        (* the starter may wait for the goroutine: it must not hold what the goroutine (its callees, its callbacks) may
+           take, nor a lock of equal or higher rank *)
+        let acq := go_acq p in
+        let e0 := (if disjoint h acq then [] else [(KGoHolding, fname)]) +++
+                  (if forallb (ranked (rank C) h) acq then [] else [(KLockOrder, fname)]) in
         match check None [] [] p [] [] with
-        | (e, None) => (e, Some (h, ds))
+        | (e, None) => (e0 +++ e, Some (h, ds))
         | (e, Some (h', ds')) =>
             let '(e2, h'') := run_defers None h' ds' in
-            (e +++ e2 +++ (if held_eqb h'' [] then [] else [(KGoHeld, fname)]), Some (h, ds))
+            (e0 +++ e +++ e2 +++ (if held_eqb h'' [] then [] else [(KGoHeld, fname)]), Some (h, ds))
         end
     | PBlock p =>
         match check decl h [] p h [] with
@@ -220,10 +261,10 @@ Definition ckind_eqb (a b : ckind) : bool :=
   match a, b with
   | KReacquire, KReacquire | KAcqUndeclared, KAcqUndeclared | KRelMode, KRelMode | KRelNotHeld, KRelNotHeld
   | KRelUndeclared, KRelUndeclared | KUnguardedRead, KUnguardedRead | KUnguardedWrite, KUnguardedWrite
-  | KImmutableWrite, KImmutableWrite | KCallback, KCallback | KCallRequires, KCallRequires | KCallHolding, KCallHolding
+  | KImmutableWrite, KImmutableWrite | KCallback, KCallback | KLockOrder, KLockOrder | KCallRequires, KCallRequires | KCallHolding, KCallHolding
   | KCalleeUndeclared, KCalleeUndeclared | KBreakLocks, KBreakLocks | KBreakOutside, KBreakOutside | KBranches, KBranches
   | KLoopNeutral, KLoopNeutral | KSwitchNeutral, KSwitchNeutral | KDeferInLoop, KDeferInLoop | KDeferInSwitch, KDeferInSwitch
-  | KReturnHeld, KReturnHeld | KGoHeld, KGoHeld | KLiteralNeutral, KLiteralNeutral | KReqAcqOverlap, KReqAcqOverlap
+  | KReturnHeld, KReturnHeld | KGoHeld, KGoHeld | KGoHolding, KGoHolding | KLiteralNeutral, KLiteralNeutral | KReqAcqOverlap, KReqAcqOverlap
   | KUndefinedCallee, KUndefinedCallee | KDuplicateName, KDuplicateName | KEntryRequires, KEntryRequires
   | KLiteralCallee, KLiteralCallee | KUnsupported, KUnsupported => true
   | _, _ => false
@@ -236,16 +277,6 @@ Fixpoint dedup_c (l : list complaint) : list complaint :=
 Definition check_all (C : contracts) (pr : program) : list (string * list complaint) :=
   flat_map (fun fb => match dedup_c (check_fn C (fst fb) (snd fb)) with [] => [] | w => [(fst fb, w)] end) pr.
 
-(* ---- call graph: callees, reachability from the entry points ---- *)
-Fixpoint callees (p : prog) : list string :=
-  match p with
-  | PCall f => [f]
-  | PSeq p q | PAlt p q => callees p ++ callees q
-  | PLoop p | PBlock p | PLoop1 p | PGo p => callees p
-  | _ => []
-  end.
-Fixpoint dedup (l : list string) : list string :=
-  match l with [] => [] | x :: t => if mem x t then dedup t else x :: dedup t end.
 (* worklist closure: each round expands only the names found in the previous one and stops when nothing is new.
    If the fuel ran out early the result is not closed under calls, which wf_program reports (KUndefinedCallee). *)
 Fixpoint reach (n : nat) (pr : program) (frontier seen : list string) : list string :=
@@ -265,18 +296,7 @@ Definition restrict (pr : program) (names : list string) : program := filter (fu
 Definition reachable (pr : program) (entries : list string) : program :=
   let e := dedup entries in restrict pr (reach (List.length pr) pr e e).
 
-(* ---- inference of the [acquires] table (untrusted: the checker validates whatever table it is given).
-        A function is charged with what the goroutines it starts may acquire as well: the starter may wait for them. ---- *)
-Fixpoint direct_acq (ua : string -> list string) (p : prog) : list string :=
-  match p with
-  | PAct (Acq l _) => [l]
-  | PAct (User k) => ua k
-  | PDefer (Acq l _) => [l]
-  | PDefer (User k) => ua k
-  | PSeq p q | PAlt p q => direct_acq ua p ++ direct_acq ua q
-  | PLoop p | PBlock p | PLoop1 p | PGo p => direct_acq ua p
-  | _ => []
-  end.
+(* ---- inference of the [acquires] table (direct_acq is defined above) ---- *)
 Fixpoint infer (n : nat) (ua : string -> list string) (pr : program) (tbl : list (string * list string)) : list (string * list string) :=
   match n with
   | O => tbl
